@@ -11,7 +11,7 @@ use proptest::prelude::*;
 use serde::{Deserialize, Serialize};
 use std::collections::BTreeMap;
 
-pub const RULE: &str = "(D0) every protected name (14 keywords / inputs / constants and every name of get_built_in_function_idents()) x 11 binding forms (plain, output, nested in parentheses / list / record / operator chain / conditional, function value; and inside a lambda body or do-block): the top-level forms must fail, and in all forms what typeof / to_string / field access observe of the name at top level, and the set of root names, must be unchanged. (D1) every sequence up to length 4 (thorough: 5 over a 22-template core) over an alphabet of statement templates on names a, b: bind, rebind, copy, nested assignment `a = (b = 5) + 1`, self-nested `a = (a = 1) + 1`, list-nested, partially failing `[a = 1, nope]`, `output a`, `output a = 1`, do-block shadowing / nested assignment inside a do-block / do-block returning a closure, functions whose parameters reuse a / b, calls, closures over a, assignment inside a lambda body, failing statements, attempts to bind keywords, inputs, constants and built-in names; each statement is evaluated like a REPL line and compared with a bind-once reference model (success / failure, the whole root environment, values). (D2) random sessions of 5-40 generated statements with rebinding attempts and failing statements, checked with history invariants: snapshot monotonicity, no insert into the root environment for a key it holds (hook H2), reserved names never bound, root names are a subset of the names assigned in top-level position. Non-trivial = the history contains a (re)binding attempt on an already bound or reserved name, or a shadowing scope; distinct by the statement sequence.";
+pub const RULE: &str = "(D0) every protected name (14 keywords / inputs / constants and every name of get_built_in_function_idents()) x 11 binding forms (plain, output, nested in parentheses / list / record / operator chain / conditional, function value; and inside a lambda body or do-block): the top-level forms must fail, and in all forms what typeof / to_string / field access observe of the name at top level, and the set of root names, must be unchanged. (D1) every sequence up to length 4 (thorough: 5 over a 25-template core) over an alphabet of statement templates on names a, b: bind, rebind, copy, nested assignment `a = (b = 5) + 1`, self-nested `a = (a = 1) + 1`, list-nested, partially failing `[a = 1, nope]`, `output a`, `output a = 1`, do-block shadowing / nested assignment inside a do-block / do-block returning a closure, functions whose parameters reuse a / b, calls, closures over a, assignment inside a lambda body (with parameters; anonymous without parameters, with and without captured names), failing statements, attempts to bind keywords, inputs, constants and built-in names; each statement is evaluated like a REPL line and compared with a bind-once reference model (success / failure, the whole root environment, values). (D2) random sessions of 5-40 generated statements with rebinding attempts and failing statements, checked with history invariants: snapshot monotonicity, no insert into the root environment for a key it holds (hook H2), reserved names never bound, root names are a subset of the names assigned in top-level position. Non-trivial = the history contains a (re)binding attempt on an already bound or reserved name, or a shadowing scope; distinct by the statement sequence.";
 pub const ASSUMPTIONS: &[&str] = &[
     "hook H2 (thread-local log of Environment::insert) is a monitor only; with the feature off the code is unchanged",
     "a statement that fails half-way may keep the bindings its already-evaluated inner assignments made (the statement only requires that bound names never change)",
@@ -67,9 +67,10 @@ pub const TEMPLATES: &[&str] = &[
     /* 31 */ "t",
     /* 32 */ "(() => (a = 4))()",
     /* 33 */ "[() => (b = 6) + 1][0]()",
+    /* 34 */ "(() => [t = a][0])()",
 ];
 
-const CORE: &[usize] = &[0, 1, 2, 3, 4, 5, 6, 7, 8, 10, 11, 12, 13, 14, 15, 17, 18, 19, 27, 28, 29, 30, 32, 33];
+const CORE: &[usize] = &[0, 1, 2, 3, 4, 5, 6, 7, 8, 10, 11, 12, 13, 14, 15, 17, 18, 19, 27, 28, 29, 30, 32, 33, 34];
 
 fn num(v: &V) -> Option<f64> {
     match v {
@@ -153,7 +154,8 @@ fn model_step(t: usize, env: &mut Env) -> Result<(), ()> {
             env.insert("a", V::Num(1.0));
             Err(())
         }
-        9 | 26 => env.get("a").map(|_| ()).ok_or(()),
+        // 34: an anonymous zero-parameter closure over a that assigns a call-local name
+        9 | 26 | 34 => env.get("a").map(|_| ()).ok_or(()),
         11 | 29 => Ok(()),
         12 => {
             if bound(env, "b") {
@@ -232,7 +234,7 @@ fn model_value(t: usize, env_after: &Env, env_before: &Env) -> Option<f64> {
         2 => Some(3.0),
         4 => env_after.get("a").and_then(num),
         5 => Some(6.0),
-        9 | 26 => env_before.get("a").and_then(num),
+        9 | 26 | 34 => env_before.get("a").and_then(num),
         11 => Some(9.0),
         12 => Some(7.0),
         14 => Some(6.0),
@@ -337,7 +339,7 @@ impl Check for History {
                     let src = TEMPLATES[ti];
                     let before = env.clone();
                     let want = model_step(ti, &mut env);
-                    if want.is_err() || matches!(ti, 11 | 12 | 27 | 28 | 29 | 30 | 32 | 33) {
+                    if want.is_err() || matches!(ti, 11 | 12 | 27 | 28 | 29 | 30 | 32 | 33 | 34) {
                         nontrivial = true;
                     }
                     verif_hooks::arm();
